@@ -163,10 +163,54 @@ Definition run_t (i : sx) (sch : list tlabel) (na nb : nat) : sx :=
   | _ => bad_input
   end.
 
+(* ---- end-to-end over the real asyncio transport (family 300): the harness drives AsyncStreamEndpoint / AsyncTCPNetworkClient over
+   the REAL StreamReaderBufferedProtocol + socket adapter with read events, cancellations of pending calls (timeouts) and
+   new calls in every order inside one loop iteration, then keeps calling until end-of-stream.  Cancelled calls are not
+   observed; by timeout_loses_nothing / recv_sequence the calls that return must deliver exactly what a single sequence of
+   calls without timeout delivers:
+   input  = L [A 300; case]   (case: oracle = what the peer sent, then eof)
+   output = L [results up to and including the first ConnectionAborted] *)
+Fixpoint until_aborted {P} (rs : list (rres P)) : list (rres P) :=
+  match rs with
+  | [] => []
+  | RecvAborted :: _ => [RecvAborted]
+  | r :: rs' => r :: until_aborted rs'
+  end.
+
+Section RunE.
+  Context {C : Type}.
+  Variable M : machine (option bytes) C.
+  Definition run_e2e (c0 : C) (o : oracle) (client : bool) : sx :=
+    let '(rs, _, _) := run_calls M Async (linit c0) o (repeat None (S (S (oracle_bytes o)))) in
+    L (map (fun r => res_sx (if client then client_convert r else r)) (until_aborted (map fst rs))).
+End RunE.
+
+Definition run_e (i : sx) : sx :=
+  match i with
+  | L (A kind :: cfg :: d :: os :: _ :: _ :: A bufsize :: A api :: _) =>
+      do dec <- mk_dec d;
+      do o <- as_list_of as_item os;
+      let bs := Z.to_nat bufsize in
+      let client := Z.eqb api 1 in
+      match kind, cfg with
+      | 0%Z, L [B sep; A limit; A ke] =>
+          let F := ru_framer sep (Z.to_nat limit) (Z.eqb ke 1) dec in run_e2e (copy_machine F bs) (cinit F) o client
+      | 1%Z, L (B sep :: A limit :: A ke :: _) =>
+          let F := bru_framer sep (Z.to_nat limit) (Z.eqb ke 1) dec in run_e2e (buf_machine F bs) (bcinit F) o client
+      | 2%Z, L [A size] =>
+          let F := rx_framer (Z.to_nat size) dec in run_e2e (copy_machine F bs) (cinit F) o client
+      | 3%Z, L (A size :: _) =>
+          let F := bfx_framer (Z.to_nat size) dec in run_e2e (buf_machine F bs) (bcinit F) o client
+      | _, _ => bad_input
+      end
+  | _ => bad_input
+  end.
+
 Definition run (i : sx) : sx :=
   match i with
   | L [A 200%Z; case; sch; A na; A nb] =>
       do s <- as_list_of as_label sch;
       run_t case s (Z.to_nat na) (Z.to_nat nb)
+  | L (A 300%Z :: case :: _) => run_e case
   | _ => run1 i
   end.
